@@ -9,6 +9,10 @@ type (
 	FileMode  = vos.FileMode
 	DirEntry  = vos.DirEntry
 	PathError = vos.PathError
+
+	Signal       = vos.Signal
+	LinkError    = vos.LinkError
+	SyscallError = vos.SyscallError
 )
 
 const (
@@ -25,6 +29,17 @@ const (
 	ModeDir  = vos.ModeDir
 
 	PathSeparator = vos.PathSeparator
+
+	SEEK_SET = vos.SEEK_SET
+	SEEK_CUR = vos.SEEK_CUR
+	SEEK_END = vos.SEEK_END
+
+	ModeAppend    = vos.ModeAppend
+	ModeExclusive = vos.ModeExclusive
+	ModeTemporary = vos.ModeTemporary
+	ModeSymlink   = vos.ModeSymlink
+	ModeType      = vos.ModeType
+	DevNull       = vos.DevNull
 )
 
 var (
@@ -54,6 +69,24 @@ var (
 	ReadDir   = vos.ReadDir
 	ReadFile  = vos.ReadFile
 	WriteFile = vos.WriteFile
+	Truncate  = vos.Truncate
+
+	Chmod      = vos.Chmod
+	Chtimes    = vos.Chtimes
+	Readlink   = vos.Readlink
+	Getuid     = vos.Getuid
+	Geteuid    = vos.Geteuid
+	Getgid     = vos.Getgid
+	Getppid    = vos.Getppid
+	CreateTemp = vos.CreateTemp
+	DirFS      = vos.DirFS
+	Unsetenv   = vos.Unsetenv
+	NewFile    = vos.NewFile
+	Interrupt  = vos.Interrupt
+	Kill       = vos.Kill
+
+	ErrDeadlineExceeded = vos.ErrDeadlineExceeded
+	ErrNoDeadline       = vos.ErrNoDeadline
 
 	IsNotExist      = vos.IsNotExist
 	IsExist         = vos.IsExist
